@@ -19,9 +19,10 @@ CONSTANTS
   HbFilterDirect = TRUE
   CutAtGE = TRUE
   SendsGraft = TRUE
-  JoinFilterDirect = FALSE
+  BubbleToD = TRUE
+  JoinFilterDirect = TRUE
   GraftNeedsStream = FALSE
-  AllowDirectInFanout = FALSE
+  AllowDirectInFanout = TRUE
   AllowHalf = FALSE
   L = 9
   HbEvery = 3
